@@ -643,8 +643,168 @@ def random_errors(rng, n0, m):
     return errors
 
 
-def make_file(rng, cyc, big=False, n0=None, errors=None, plain_body=False, pv=None, dists=None):
+# ---------------------------------------------------------------------------------------------------
+# long runs of comment / blank lines.  "Any interleaving of comment and blank lines" includes runs far longer than a
+# writer's occasional remark: a licence / provenance preamble, a separator block between batches, a tail of blank lines.
+# A run is described by where it sits (before the header, between header lines, between header and body, between two body
+# records, after the last record), how long it is, what it is made of, and where its first line falls relative to
+# multiples of a block of lines (readers that take the file in blocks of lines or of bytes are the natural victims).
+RUN_LENGTHS = [1, 2, 7, 8, 9, 15, 16, 17, 31, 32, 33, 63, 64, 65, 95, 96, 97, 127, 128, 129, 191, 192, 193, 200]
+RUN_PLACES = ['pre', 'hdr', 'hdr-body', 'body', 'end']
+RUN_BLOCKS = [8, 16, 32, 64, 128]
+RUN_STYLES = ['blank', 'comment', 'numbered', 'mixed', 'alternate', 'spaces']
+WIDE = [100, 1000, 4090, 4096, 8185, 8192, 8200, 20000, 70000]
+
+
+def run_block_of(rng, length):
+    """the block size a run length sits next to (a power of two within one line of it), else any of RUN_BLOCKS"""
+    near = [b for b in RUN_BLOCKS if abs(length - b) <= 1]
+    return near[0] if near else rng.choice(RUN_BLOCKS)
+
+
+def run_lines(rng, k, style, wide=0):
+    if style == 'blank':
+        out = [''] * k
+    elif style == 'comment':
+        out = ['//'] * k
+    elif style == 'numbered':
+        out = ['// ---- separator %d ----' % i for i in range(k)]
+    elif style == 'alternate':
+        out = ['' if i % 5 == 4 else '// line %d' % i for i in range(k)]
+    elif style == 'spaces':
+        out = [rng.choice([' ', '\t', '   ', ' \t \t', '\x0c']) for _ in range(k)]
+    else:
+        out = [rng.choice(COMMENTS) for _ in range(k)]
+    if wide and k:
+        out[rng.randrange(k)] = '// ' + 'w' * wide
+    return out
+
+
+def split_gaps(lines):
+    """lines -> (gaps, reals): gaps[g] = the comment/blank lines before real line g (gaps[len(reals)]: after the last)"""
+    gaps, reals, cur = [], [], []
+    for l in lines:
+        if RE_SKIP.match(l + '\n'):
+            cur.append(l)
+        else:
+            gaps.append(cur)
+            reals.append(l)
+            cur = []
+    gaps.append(cur)
+    return gaps, reals
+
+
+def join_gaps(gaps, reals, lo, hi):
+    """lines of gaps[lo] real[lo] ... real[hi-1] (the gap hi itself is not included)"""
+    out = []
+    for g in range(lo, hi):
+        out += gaps[g]
+        out.append(reals[g])
+    return out
+
+
+def inject_gaps(rng, gaps, n_hdr, runs):
+    """put the runs into the gaps; the first run that asks for it is then moved (by extra comment lines in earlier gaps)
+    so that its first line has index = a mod B.  Returns the description of what was done."""
+    nreal = len(gaps) - 1
+    info = []
+    for r in runs:
+        place = r['place']
+        if place == 'hdr' and n_hdr < 2:
+            place = 'hdr-body'
+        if place == 'body' and nreal - n_hdr < 2:
+            place = 'end'
+        g = {'pre': 0, 'hdr': rng.randint(1, max(1, n_hdr - 1)), 'hdr-body': n_hdr,
+             'body': rng.randint(n_hdr + 1, max(n_hdr + 1, nreal - 1)), 'end': nreal,
+             'any': rng.randint(0, nreal)}[place]
+        g = min(g, nreal)
+        new = run_lines(rng, r['length'], r['style'], r.get('wide', 0))
+        at = rng.choice([0, len(gaps[g])]) if gaps[g] else 0
+        gaps[g][at:at] = new
+        info.append({'place': place, 'gap': g, 'records_before': max(0, g - n_hdr), 'asked_length': r['length'],
+                     'style': r['style'], 'wide': r.get('wide', 0), 'align': r.get('align')})
+    used = set(i['gap'] for i in info)
+    for i in info:
+        if i['align'] and i['gap'] > 0:
+            B, a = i['align']
+            first = i['gap'] + sum(len(x) for x in gaps[:i['gap']])
+            pad = (a - first) % B
+            free = [g for g in range(i['gap']) if g not in used] or list(range(i['gap']))
+            while pad:
+                k = pad if rng.random() < 0.5 else rng.randint(1, pad)
+                gaps[rng.choice(free)][0:0] = run_lines(rng, k, rng.choice(RUN_STYLES))
+                pad -= k
+            break
+    pos = 0
+    starts = []
+    for g, x in enumerate(gaps):
+        starts.append(pos)
+        pos += len(x) + 1
+    for i in info:
+        i['first_line'] = starts[i['gap']]
+        i['length'] = len(gaps[i['gap']])
+    return info
+
+
+def inject_runs(rng, hl, bl, runs):
+    gh, rh = split_gaps(hl)
+    gb, rb = split_gaps(bl)
+    gaps = gh[:-1] + [gh[-1] + gb[0]] + gb[1:]
+    reals = rh + rb
+    info = inject_gaps(rng, gaps, len(rh), runs)
+    nh, nr = len(rh), len(reals)
+    hl2 = join_gaps(gaps, reals, 0, nh) + gaps[nh]         # the gap between header and body goes with the header
+    bl2 = []
+    if nr > nh:
+        bl2 = [reals[nh]] + join_gaps(gaps, reals, nh + 1, nr) + gaps[nr]
+    return hl2, bl2, info
+
+
+def inject_runs_text(rng, text, runs):
+    """the same for a file that exists only as text (malformed stream): runs at any gap between its non-comment lines"""
+    eol = '\r\n' if '\r\n' in text else '\n'
+    trail = text.endswith(eol)
+    lines = (text[:-len(eol)] if trail else text).split(eol)
+    gaps, reals = split_gaps(lines)
+    info = inject_gaps(rng, gaps, 0, runs)
+    out = join_gaps(gaps, reals, 0, len(reals)) + gaps[len(reals)]
+    return eol.join(out) + (eol if trail else ''), info
+
+
+def run_specs(rng, length, place, aligned, wide=0):
+    """the main run (length, place, aligned or not to its block) and sometimes one or two more anywhere"""
+    B = run_block_of(rng, length)
+    a = 0 if aligned else rng.choice([1, B - 1, B // 2, rng.randrange(1, B)])
+    specs = [{'place': place, 'length': length, 'style': rng.choice(RUN_STYLES), 'align': [B, a], 'wide': wide}]
+    r = rng.random()
+    for _ in range(1 if r < 0.3 else (2 if r < 0.4 else 0)):
+        specs.append({'place': rng.choice(RUN_PLACES), 'length': rng.choice(RUN_LENGTHS) if rng.random() < 0.5 else rng.randint(1, 200),
+                      'style': rng.choice(RUN_STYLES), 'align': None})
+    return specs
+
+
+def make_longrun(rng, cyc, length, place, aligned, wide=0):
+    """a well-formed file with long comment/blank runs, and two histories on it: one that starts before the main run
+    (generate calls cross it) and one that starts at / after it (the constructor's skipping crosses it)"""
+    n0 = rng.randint(1, 8)
+    r = rng.random()
+    m = rng.randint(2, 10) if r < 0.8 else (1 if r < 0.85 else rng.randint(30, 70))
+    text, rec = make_file(rng, cyc, n0=n0, errors=random_errors(rng, n0, m), runs=run_specs(rng, length, place, aligned, wide))
+    j = min(rec['runs'][0]['records_before'], m)
+    p0f = fnum(rec['items'][0][1])
+    scns = []
+    for s in (rng.choice([0, max(0, j - 1), max(0, j - 1)]), rng.choice([j, min(j + 1, m), m, m + 1, rng.randint(j, m + 1)])):
+        if rng.random() < 0.5:
+            calls = [('G', n0, rng.choice(right_ps(p0f))) for _ in range(max(0, m - s) + 2)] + [('L',)]
+        else:
+            s, calls = make_calls(rng, rec, start=s)
+        scns.append({'text': text, 'start': s, 'calls': calls})
+    return scns, rec
+
+
+def make_file(rng, cyc, big=False, n0=None, errors=None, plain_body=False, pv=None, dists=None, runs=None):
     """a well-formed file with a random layout; returns (text, record of what was written).
+    runs given: long runs of comment / blank lines are put into the layout (inject_runs).
     n0/errors given: the recorded errors are the caller's (sessions: files sharing records);
     pv/dists given: the header probability / the pool of distributions are the caller's (path sessions: successive
     files under one name that agree or differ in exactly these)."""
@@ -681,15 +841,20 @@ def make_file(rng, cyc, big=False, n0=None, errors=None, plain_body=False, pv=No
         name, val = items[-1]
         hdr_texts = [t for t in layout_lines(rng, items[:-1], list(range(len(items) - 1)), [])]
         hdr_texts.append('{"%s": "shadowed", "%s": %s}' % (name, name, json.dumps(val)))
-    density = rng.choice([0.0, 0.1, 0.3, 0.5])
+    density = rng.choice([0.0, 0.1, 0.3, 0.5]) if not runs else rng.choice([0.0, 0.0, 0.1])
     hl, _ = interleave(rng, hdr_texts, density)
     # plain_body: every record written the same way, so that equal errors are equal *lines* (as a writer produces them)
     bl, nbody_comments = interleave(rng, [body_text(rng, e, 4 if plain_body else None) for e in errors], density)
+    run_info = None
+    if runs:
+        hl, bl, run_info = inject_runs(rng, hl, bl, runs)
     # comment/blank lines strictly between the first and the last recorded error
     real = [i for i, l in enumerate(bl) if not RE_SKIP.match(l + '\n')]
     inside = (real[-1] - real[0] + 1 - len(real)) if real else 0
     text = assemble(rng, hl, bl)
     rec = {'items': items, 'errors': errors, 'n0': n0, 'm': m, 'body_comments': inside}
+    if run_info:
+        rec['runs'] = run_info
     return text, rec
 
 
@@ -975,6 +1140,8 @@ def replay_dict(scn, rec=None):
     if rec:
         d['n_qubits'] = rec.get('n0')
         d['recorded_errors'] = [bitstr(e) for e in rec.get('errors', [])][:60]
+        if rec.get('runs'):
+            d['comment_runs'] = rec['runs']
         if rec.get('defect'):
             d['defect'] = rec['defect']
             d['defect_body_index'] = rec.get('bad_index')
@@ -1405,7 +1572,16 @@ def run(ctx):
                 'body of packed records, start at 0 / before / at / after the record / end of file, asked with the file\'s qubit '
                 'count and with the count the stated length or the payload size fits; decision from the record text alone '
                 '(served iff valid hex holding >= length bits and length = 2n, then exactly the first 2n payload bits; refused '
-                'with ValueError otherwise), nontrivial = a varied record is reached by a generate call' % len(DEFECTS))
+                'with ValueError otherwise), nontrivial = a varied record is reached by a generate call. Long-run stream: '
+                'well-formed files holding a run of 1..200 comment / blank lines (every length in %s and random ones; made of blank '
+                'lines, bare //, numbered comments, white space only, mixtures; every ninth with one comment line of 100..70000 '
+                'characters) before the header, between header lines, between header and body, between two body records or '
+                'after the last record, its first line placed on a multiple of the neighbouring power-of-two block of lines '
+                '(8..128) and off it, sometimes with one or two more runs elsewhere; each file is driven from a start before '
+                'the run (generate calls cross it) and from a start at / after it (the skipping at construction crosses it), '
+                'to the end of file and past it; the same runs at any place of one-defect malformed files. Decided by the '
+                'model on the classified lines (FileModel.v skips Skip lines one by one) and directly from the record; '
+                'nontrivial there = run of >= 8 lines in a file with >= 2 errors' % (len(DEFECTS), RUN_LENGTHS))
     ctx.props_obligations()
     ctx.trusted += [
         'classification of raw lines (comment/blank regex ^\\s*(//.*)?$, json.loads, dict vs non-dict, text-mode line splitting) '
@@ -1603,6 +1779,39 @@ def run(ctx):
                 psess.append((ps, wlines, mine))
         ctx.extra['path_sessions'] = {'n': n_psessions, 'instances_opened_on_a_rewritten_path_with_the_start_of_an_earlier_one':
                                       reopened_same}
+
+        # ---- 8. long runs of comment / blank lines (1..200 lines; just below / at / above powers of two; first line on and
+        #         off multiples of that block; before the header, inside it, between header and body, between two body
+        #         records, after the last record; lines of every comment / blank spelling, some several buffers wide), each
+        #         file driven from a start before the run and from a start at / after it; also inside malformed files -----
+        grid = []
+        for L in RUN_LENGTHS:
+            near = any(abs(L - b) <= 1 for b in RUN_BLOCKS)
+            for place in RUN_PLACES:
+                if near or not ctx.quick:
+                    grid += [(L, place, True), (L, place, False)]
+                else:
+                    grid.append((L, place, len(grid) % 2 == 0))
+        for _ in range(ctx.pick(40, 1200)):
+            grid.append((rng.randint(1, 200), rng.choice(RUN_PLACES), rng.random() < 0.5))
+        for gi, (L, place, aligned) in enumerate(grid):
+            wide = rng.choice(WIDE) if gi % 9 == 4 else 0
+            scns, rec = make_longrun(rng, cyc, L, place, aligned, wide)
+            ri = rec['runs'][0]
+            ctx.hist['long-run/%s/%s' % (ri['place'], 'aligned' if ri['first_line'] % ri['align'][0] == 0 else 'unaligned')] += 1
+            ctx.hist['long-run/length>=%d' % max([b for b in [1] + RUN_BLOCKS if ri['length'] >= b])] += 1
+            for k, scn in enumerate(scns):
+                do(scn, rec, 'long-run/' + ('start-before' if k == 0 else 'start-at-or-after'), check_healthy,
+                   nt=bool(rec['m'] >= 2 and ri['length'] >= 8))
+        run_defects = [d for d in DEFECTS if d not in ('empty-file', 'missing-file')]
+        for k in range(ctx.pick(3, 20) * len(run_defects)):
+            d = run_defects[k % len(run_defects)]
+            scn, rec = make_malformed(rng, d)
+            L = rng.choice(RUN_LENGTHS)
+            scn['text'], rec['runs'] = inject_runs_text(rng, scn['text'], [
+                {'place': 'any', 'length': L, 'style': rng.choice(RUN_STYLES),
+                 'align': [run_block_of(rng, L), rng.choice([0, 0, 1, rng.randrange(8)])]}])
+            do(scn, rec, 'long-run/malformed/' + d, check_malformed, nt=False)
 
         # ---- correspondence with the extracted model -------------------------------------------
         out = ctx.model('c18', req)
